@@ -81,3 +81,33 @@ def schema():
                 os.remove(f)
         return (p.stderr.strip() or "translate.py failed")[-1500:]
     return None
+
+
+# ---------------------------------------------------------------- C08 / C12: opcode and machine.Type numberings of the Numscript VM
+
+@register("opcodes")
+def opcodes():
+    """extract/opcodes (go/ast) -> lean/Generated/Opcodes.lean (+ build/opcodes.json for the evidence).
+    The old file is removed first: a failing extractor leaves NO table behind."""
+    import subprocess
+    from .common import VERIF, REPO, BUILD, GOENV
+    out = os.path.join(LEAN, "Generated", "Opcodes.lean")
+    summary = os.path.join(BUILD, "opcodes.json")
+    for f in (out, summary):
+        if os.path.exists(f):
+            os.remove(f)
+    os.makedirs(BUILD, exist_ok=True)
+    os.makedirs(os.path.join(LEAN, "Generated"), exist_ok=True)
+    src = os.path.join(VERIF, "extract", "opcodes")
+    binary = os.path.join(BUILD, "extract-opcodes")
+    if os.path.exists(binary):
+        os.remove(binary)
+    p = subprocess.run(["go", "build", "-o", binary, "."], cwd=src, env=GOENV, capture_output=True, text=True, timeout=600)
+    if p.returncode != 0:
+        return "go build extract/opcodes failed: " + p.stderr[-1500:]
+    p = subprocess.run([binary, "-repo", REPO, "-out", out, "-json", summary], capture_output=True, text=True, timeout=600)
+    if p.returncode != 0:
+        if os.path.exists(out):
+            os.remove(out)
+        return (p.stderr.strip() or "extract-opcodes failed")[-1500:]
+    return None
